@@ -278,6 +278,12 @@ def worker(case):
             for op in list(x.pins)[:2]:
                 mine = [cc for cc, ss in occ.pin.items() if ss[-1] is op.inner_pin and ss[-3] is x]
                 ask("hpins", op, "outerpin", mine)
+                # ... and the same pin named through an equal handle built from (instance, inner pin)
+                proxy = s.OuterPin.from_instance_and_inner_pin(x, op.inner_pin)
+                ask("hpins", proxy, "outerpin-by-handle", mine)
+                got = sorted(chain(h) for h in HRef.get_all_hrefs_of_item(proxy))
+                if got != sorted(chain(h) for h in HRef.get_all_hrefs_of_item(op)):
+                    probs.append(("get_all_hrefs_of_item:outerpin-by-handle", "%s: the stored pin and an equal handle give different occurrences" % tag))
     # ---- uniqueness on the unedited design
     cnt = {}
     for cc, ss in occ.inst.items():
@@ -291,7 +297,7 @@ def worker(case):
         return {"key": key, "nontrivial": _hier.sharing(occ.e), "outcome": "ok", "problems": probs, "transitions": nq[0]}
     # ---- one breaking edit, then every held reference is re-judged
     held[top_ids] = HRef.from_sequence([n.top_instance])
-    edits = list_edits(n)
+    edits = list_edits(n) if kind == "edit" else list_undone(n)
     ei = case[3] if len(case) > 3 else 0
     if ei >= len(edits):
         return {"key": key, "nontrivial": False, "outcome": "no-such-edit", "problems": probs, "transitions": nq[0]}
@@ -384,6 +390,30 @@ def list_edits(n):
     return out
 
 
+def list_undone(n):
+    """Edits that take something out and put it back where it was: nothing is broken afterwards."""
+    out = []
+    for lib in n.libraries:
+        for d in lib.definitions:
+            for x in list(d.children)[:2]:
+                i = list(d.children).index(x)
+                out.append(("child-removed-and-added-back:%s/%s" % (d.name, x.name), lambda d=d, x=x, i=i: (d.remove_child(x), d.add_child(x, position=i))))
+                out.append(("children-removed-in-bulk-and-added-back:%s/%s" % (d.name, x.name), lambda d=d, x=x, i=i: (d.remove_children_from([x]), d.add_child(x, position=i))))
+                out.append(("reference-cleared-and-set-again:%s/%s" % (d.name, x.name), lambda x=x, r=x.reference: (setattr(x, "reference", None), setattr(x, "reference", r))))
+            for c in list(d.cables)[:1]:
+                if not any(w.pins for w in c.wires):
+                    i = list(d.cables).index(c)
+                    out.append(("cable-removed-and-added-back:%s/%s" % (d.name, c.name), lambda d=d, c=c, i=i: (d.remove_cables_from([c]), d.add_cable(c, position=i))))
+            if d is not n.top_instance.reference:
+                i = list(lib.definitions).index(d)
+                out.append(("definition-removed-and-added-back:%s" % d.name, lambda lib=lib, d=d, i=i: (lib.remove_definitions_from([d]), lib.add_definition(d, position=i))))
+        i = list(n.libraries).index(lib)
+        out.append(("library-removed-and-added-back:%s" % lib.name, lambda lib=lib, i=i: (n.remove_library(lib), n.add_library(lib, position=i))))
+    top = n.top_instance
+    out.append(("top-cleared-and-set-again", lambda: (setattr(n, "top_instance", None), setattr(n, "top_instance", top))))
+    return out
+
+
 engine_b.WORKERS[ID] = worker
 MAX_EDITS = 40
 
@@ -412,6 +442,8 @@ def cases(tier):
             for ei in range(MAX_EDITS):
                 for order in (core.ORDER_VARIANTS if not deep else ("asc",)):
                     out.append(((sk, first, "plain"), order, "edit", ei))
+            for ei in range(24):
+                out.append(((sk, first, "plain"), "asc", "undone", ei))
     return out
 
 
